@@ -19,7 +19,7 @@ from ..facts import AnalysisError
 from ..raises import Escapes, EscapePolicy
 from ..sym import Engine, enum_members
 from ..terms import const, contains, is_const, show, strip_sites, subterms
-from ..util import InlineOnly, NoInline, P, Scan, calls_to, engine, loc, param_at
+from ..util import InlineOnly, NoInline, P, Scan, calls_to, engine, loc, param_at, sched_targets
 
 PROTO = "sd.ServiceDiscoveryProtocol"
 BASE = "sd.SOMEIPDatagramProtocol"
@@ -111,15 +111,18 @@ def check(run, prog, tier):
         fi = prog.func(q)
         for p in eng.paths(fi, recv=recv):
             for e in p.events:
-                if e.kind == "call" and e.sched in ("soon", "later") and e.cb is not None and e.cb[0] == "bound":
-                    tgt = prog.functions.get(e.cb[2])
+                if e.kind == "call" and e.sched in ("soon", "later") and e.cb is not None:
+                  for cb_, ca_, ck_ in sched_targets(eng, p, e, fi):
+                    if cb_[0] != "bound":
+                        continue
+                    tgt = prog.functions.get(cb_[2])
                     if tgt is None or (tgt.qual, e.sched) in seen:
                         continue
                     seen.add((tgt.qual, e.sched))
-                    ty = eng.typer.type_of(e.cb[1])
+                    ty = eng.typer.type_of(cb_[1])
                     rc = ty[1] if ty and ty[0] == "cls" else None
                     known = {k: v for k, v in (e.known or {}).items() if isinstance(k, tuple) and k and k[0] == "$eq"}
-                    esc = esr.escapes(tgt, recv=rc, args=tuple(e.cbargs), kwargs=(), recv_term=e.cb[1], known=known)
+                    esc = esr.escapes(tgt, recv=rc, args=tuple(ca_), kwargs=tuple(ck_), recv_term=cb_[1], known=known)
                     run.ob("E1", f"{tgt.qual}:deferred-continuation-raises-nothing", not esc, loc(fi, e.node),
                            f"{tgt.name} (scheduled by {fi.name}) lets nothing out" if not esc else
                            "; ".join(f"{exc} reaches the event loop's exception handler (raised at {where})" for exc, where in sorted(esc.items())))
